@@ -30,47 +30,98 @@ func fieldStores(fn *ssa.Function, base ssa.Value, name string) []*ssa.Store {
 
 func ruleBitList(c *Ctx) {
 	const R1 = "L1-GROW-COPY"
-	c.Doc(R1, "utils.(*BitList).grow: the slice stored to bl.data is freshly made with length len(old)+growBy, growBy >= 128 on every path, and is the destination of a copy from the old bl.data that precedes the store (earlier bits survive growth)")
+	c.Doc(R1, "BitList growth (wherever AddBit or its helpers store to bl.data): the stored slice is freshly made, directly or by a helper that returns its own make, with length len(old)+growBy, growBy >= 1 on every path, and is the destination of a copy from the old bl.data that precedes the store/return (earlier bits survive growth)")
 	c.Floor(R1, 2)
-	if fn := c.theFunc(R1, "utils.(*BitList).grow"); fn != nil {
+	var growSites []DeepSite
+	if fn := c.theFunc(R1, "utils.(*BitList).AddBit"); fn != nil {
 		n := NewNormer(c.P)
-		n.BindParams(fn, "bl")
-		sts := fieldStores(fn, fn.Params[0], "data")
-		if len(sts) != 1 {
-			c.Check(R1, "utils.(*BitList).grow/store", fn.Pos(), false, "exactly one store to bl.data", fmt.Sprint(len(sts)))
-		} else {
-			st := sts[0]
-			mk, ok := st.Val.(*ssa.MakeSlice)
+		n.BindParams(fn, "bl", "bits")
+		c.P.deepEach(fn, 2, func(s DeepSite) {
+			st, ok := s.Ins.(*ssa.Store)
 			if !ok {
-				c.Check(R1, "utils.(*BitList).grow/fresh", st.Pos(), false, "a freshly made slice", st.Val.String())
-			} else {
-				// length = len(bl.data) + growBy, growBy is a phi/const with lower bound >= 1
-				grows := false
-				why := n.Norm(mk.Len).String()
-				if add, ok := mk.Len.(*ssa.BinOp); ok && add.Op == token.ADD {
-					for _, pair := range [][2]ssa.Value{{add.X, add.Y}, {add.Y, add.X}} {
-						if pEqual(n.Norm(pair[0]), MustRef("len(bl.data)")) {
-							l := newLbCtx(c.P)
-							if lb := l.lb(pair[1]); lb != lbUnknown && lb >= 1 {
-								grows = true
-								why = fmt.Sprintf("len(bl.data) + growBy, growBy >= %d", lb)
-							}
-						}
-					}
-				}
-				c.Check(R1, "utils.(*BitList).grow/longer", mk.Pos(), grows, "len(bl.data) + (something >= 1)", why)
-				copied := false
-				for _, r := range *mk.Referrers() {
-					if call, ok := r.(*ssa.Call); ok {
-						if bi, ok := call.Common().Value.(*ssa.Builtin); ok && bi.Name() == "copy" && call.Common().Args[0] == ssa.Value(mk) {
-							if pEqual(n.Norm(call.Common().Args[1]), MustRef("bl.data")) && dominatesInstr(call, st) {
-								copied = true
-							}
-						}
-					}
-				}
-				c.Check(R1, "utils.(*BitList).grow/copy", st.Pos(), copied, "copy(new, bl.data) before bl.data = new", fmt.Sprint(copied))
+				return
 			}
+			fa, ok := st.Addr.(*ssa.FieldAddr)
+			if !ok {
+				return
+			}
+			stt := fa.X.Type().Underlying().(*types.Pointer).Elem().Underlying().(*types.Struct)
+			if fname(stt.Field(fa.Field)) != "data" || namedTypeName(fa.X.Type()) != "utils.BitList" {
+				return
+			}
+			if got := n.NormAt(s, fa.X).String(); got != "bl" {
+				return
+			}
+			growSites = append(growSites, s)
+		})
+		if len(growSites) == 0 {
+			c.Check(R1, "utils.(*BitList).AddBit/growth/store", fn.Pos(), false, "a store to bl.data reachable from AddBit", "none")
+		}
+		for gi, s := range growSites {
+			key := "utils.(*BitList).AddBit/growth"
+			if gi > 0 {
+				key = fmt.Sprintf("%s#%d", key, gi+1)
+			}
+			st := s.Ins.(*ssa.Store)
+			// the made slice: here, or the single result of a helper
+			ms := s
+			var mk *ssa.MakeSlice
+			var anchor ssa.Instruction = st // what the copy must precede
+			v := st.Val
+			for depth := 0; depth < 3 && mk == nil; depth++ {
+				switch x := v.(type) {
+				case *ssa.MakeSlice:
+					mk = x
+				case *ssa.Call:
+					cal := x.Common().StaticCallee()
+					if cal == nil || !isRepoFunc(cal) || cal.Blocks == nil {
+						depth = 3
+						break
+					}
+					rets := returnsOf(cal)
+					if len(rets) != 1 || len(rets[0].Results) != 1 {
+						depth = 3
+						break
+					}
+					ms = DeepSite{rets[0], cal, append(append([]ssa.CallInstruction{}, ms.Path...), x)}
+					anchor = rets[0]
+					v = rets[0].Results[0]
+				default:
+					depth = 3
+				}
+			}
+			if mk == nil {
+				c.Check(R1, key+"/fresh", st.Pos(), false, "a freshly made slice", st.Val.String())
+				continue
+			}
+			saved := n.Ctx
+			n.Ctx = ms.Path
+			grows := false
+			why := n.Norm(mk.Len).String()
+			if add, ok := mk.Len.(*ssa.BinOp); ok && add.Op == token.ADD {
+				for _, pair := range [][2]ssa.Value{{add.X, add.Y}, {add.Y, add.X}} {
+					if pEqual(n.Norm(pair[0]), MustRef("len(bl.data)")) {
+						l := newLbCtx(c.P)
+						if lb := l.lb(pair[1]); lb != lbUnknown && lb >= 1 {
+							grows = true
+							why = fmt.Sprintf("len(bl.data) + growBy, growBy >= %d", lb)
+						}
+					}
+				}
+			}
+			c.Check(R1, key+"/longer", mk.Pos(), grows, "len(bl.data) + (something >= 1)", why)
+			copied := false
+			for _, r := range *mk.Referrers() {
+				if call, ok := r.(*ssa.Call); ok {
+					if bi, ok := call.Common().Value.(*ssa.Builtin); ok && bi.Name() == "copy" && call.Common().Args[0] == ssa.Value(mk) {
+						if pEqual(n.Norm(call.Common().Args[1]), MustRef("bl.data")) && dominatesInstr(call, anchor) {
+							copied = true
+						}
+					}
+				}
+			}
+			n.Ctx = saved
+			c.Check(R1, key+"/copy", st.Pos(), copied, "copy(new, bl.data) before bl.data = new", fmt.Sprint(copied))
 		}
 	}
 
@@ -81,11 +132,25 @@ func ruleBitList(c *Ctx) {
 		n := NewNormer(c.P)
 		n.BindParams(fn, "bl", "bits")
 		setBit := c.P.Func("utils.(*BitList).SetBit")
-		grow := c.P.Func("utils.(*BitList).grow")
-		sc, gc := callsTo(fn, setBit), callsTo(fn, grow)
+		// the growth step as seen from AddBit: the call leading to the store to bl.data, or the store itself
+		var gc []ssa.Instruction
+		for _, s := range growSites {
+			var ins ssa.Instruction = s.Ins
+			if len(s.Path) > 0 {
+				ins = s.Path[0]
+			}
+			dup := false
+			for _, g := range gc {
+				dup = dup || g == ins
+			}
+			if !dup {
+				gc = append(gc, ins)
+			}
+		}
+		sc := callsTo(fn, setBit)
 		sts := fieldStores(fn, fn.Params[0], "count")
 		if len(sc) != 1 || len(gc) != 1 || len(sts) != 1 {
-			c.Check(R2, "utils.(*BitList).AddBit/shape", fn.Pos(), false, "one SetBit call, one grow call, one store to count", fmt.Sprintf("%d/%d/%d", len(sc), len(gc), len(sts)))
+			c.Check(R2, "utils.(*BitList).AddBit/shape", fn.Pos(), false, "one SetBit call, one growth step, one store to count", fmt.Sprintf("%d/%d/%d", len(sc), len(gc), len(sts)))
 		} else {
 			set, gr, st := sc[0], gc[0], sts[0]
 			// the per-bit loop: range over bits; its body block dominates everything per bit
